@@ -449,8 +449,8 @@ func cmdCheck(args []string) int {
 				violations = append(violations, confirmed{v: v, dir: dir, h: o.name, real: true})
 			} else {
 				replayMismatch++
-				inconclusive = append(inconclusive, fmt.Sprintf("%s: counterexample for %s did not reproduce natively (native outcome %q, engine obs %v, native obs %v): engine or stub mismatch",
-					o.name, v.AssertID, res.Outcome, v.Observed, res.Observed))
+				inconclusive = append(inconclusive, fmt.Sprintf("%s: counterexample for %s did not reproduce natively (native outcome %q, engine obs %v, native obs %v, engine message %q): engine or stub mismatch",
+					o.name, v.AssertID, res.Outcome, v.Observed, res.Observed, v.Msg))
 				if *verbose {
 					fmt.Fprintln(os.Stderr, tail(res.Raw, 3000))
 				}
